@@ -21,8 +21,8 @@ let parse_parlit t =
   let nnz = next_int t in
   let rows = Array.make nr [] in
   for _ = 1 to nnz do
-    let i = next_int t in let j = next_int t in let _ = next t in
-    rows.(i) <- j :: rows.(i)
+    let i = next_int t in let j = next_int t in let v = next t in
+    if v = "1" then rows.(i) <- j :: rows.(i)        (* other values: weak couplings of A, not part of the strength graph *)
   done;
   let g = Array.to_list (Array.map (fun r -> List.map nat_of_int (List.rev r)) rows) in
   let rec diffs = function a :: (b :: _ as tl) -> nat_of_int (b - a) :: diffs tl | _ -> [] in
@@ -45,7 +45,7 @@ let run_case cid (t : toks) =
       match r with
       | Some st -> Printf.printf "%s ST %s\n" cid (labels_str st)
       | None -> Printf.printf "%s NOFUEL\n" cid end
-  | "par" ->
+  | "par" | "parw" ->
     let algo = next t in let _tap = next_int t in
     let (n, g, part) = parse_parlit t in
     let w = next_qs t n in
